@@ -65,6 +65,9 @@ def run(ck: vlib.Check):
                      "members": [["staredit\\wav\\a1001.wav", 1001], ["staredit\\wav\\a1003.wav", 1003], ["staredit\\wav\\a37.wav", 37]]})
         jobs.append({"kind": "same-basename", "base": b,
                      "members": [["staredit\\wav\\theme.wav", 700], ["a\\theme.wav", 1300], ["z\\theme.wav", 300]]})
+    for b in ("scx1", "scx3"):
+        for f in ("wav", "ogg"):
+            jobs.append({"kind": "reimport", "base": b, "file": f})
     results = run_jobs(jobs)
     for j, r in zip(jobs, results):
         ck.evaluations += 1
